@@ -74,14 +74,14 @@ struct Budget {
 
 fn budget(prop: Prop, tier: &str) -> Budget {
     let quick = match prop {
-        Prop::C01 | Prop::C03 | Prop::C12 | Prop::C11 => 60_000,
-        Prop::C15 => 20_000,
-        _ => 120_000,
+        Prop::C01 | Prop::C03 | Prop::C04 | Prop::C12 | Prop::C11 => 600_000,
+        Prop::C15 => 150_000,
+        _ => 1_000_000,
     };
     if tier == "thorough" {
-        Budget { scenarios: quick * 60, max_seconds: 900.0 }
+        Budget { scenarios: quick * 20, max_seconds: 900.0 }
     } else {
-        Budget { scenarios: quick, max_seconds: 120.0 }
+        Budget { scenarios: quick, max_seconds: 90.0 }
     }
 }
 
